@@ -391,6 +391,132 @@ Proof.
   apply existsb_exists. exists k. split; [assumption|]. now rewrite H7, H6.
 Qed.
 
+(* ---------- ambiguity is never resolved by guessing ---------- *)
+Lemma find_designated : forall kid alg keys k,
+  find_matching_key kid "sig" alg keys = FOk k -> In k keys /\ designated kid alg keys k = true.
+Proof.
+  intros kid alg keys k H. split; [now apply find_key_sound in H as [Hin _]|].
+  rewrite find_matching_key_filters in H. unfold designated.
+  destruct (exact_keys kid "sig" alg keys) as [|k' ex].
+  - apply find_finish_ok in H. rewrite H. apply jwk_eqb_refl.
+  - inversion H; subst k'. cbn. now rewrite jwk_eqb_refl.
+Qed.
+
+Section Designated.
+  Variable verify : jwk -> sigentry -> string -> bool.
+
+  (* a published list answers only through the key FindMatchingKey designates among ALL its keys *)
+  Lemma verify_found_designated : forall keys e p k,
+    verify_found verify (find_matching_key (se_kid e) "sig" (se_alg e) keys) e p = Some k ->
+    In k keys /\ designated (se_kid e) (se_alg e) keys k = true /\ verify k e p = true.
+  Proof.
+    intros keys e p k H. apply verify_found_sound in H as [Hf Hv].
+    apply find_designated in Hf as [Hin Hd]. now repeat split.
+  Qed.
+
+  Theorem openid_designated : forall keys e p k,
+    openid_verify verify (Some keys) e p = Some k ->
+    In k keys /\ designated (se_kid e) (se_alg e) keys k = true /\ verify k e p = true.
+  Proof. intros keys e p k H. cbn in H. now apply verify_found_designated. Qed.
+
+  (* two or more possible keys and no exact match: the provider's key set and the
+     remote key set (from its cache as from a download) accept nothing *)
+  Theorem keyset_ambiguity_rejected : forall e p keys,
+    exact_keys (se_kid e) "sig" (se_alg e) keys = [] ->
+    2 <= List.length (loose_keys (se_kid e) "sig" (se_alg e) keys) ->
+    openid_verify verify (Some keys) e p = None
+    /\ (forall skip, remote_verify verify [] (Some keys) skip e p = None)
+    /\ (forall skip, remote_verify verify keys None skip e p = None).
+  Proof.
+    intros e p keys Hex Hl.
+    pose proof (find_key_ambiguous _ _ _ _ Hex Hl) as Hm.
+    split; [cbn; now rewrite Hm|]. split; intro skip.
+    - cbn. now rewrite Hm.
+    - unfold remote_verify. destruct keys; [reflexivity|]. now rewrite Hm.
+  Qed.
+
+  (* remote key set: the designating list is the one held after the call *)
+  Lemma remote_verify_designated : forall cached served skip e p k,
+    remote_verify verify cached served skip e p = Some k ->
+    let held := if remote_needs_fetch verify cached skip e p
+                then match served with Some l => l | None => cached end else cached in
+    In k held /\ designated (se_kid e) (se_alg e) held k = true /\ verify k e p = true.
+  Proof.
+    intros cached served skip e p k H.
+    assert (Hfetch : remote_fetch_verify verify served e p = Some k ->
+              let held := match served with Some l => l | None => cached end in
+              In k held /\ designated (se_kid e) (se_alg e) held k = true /\ verify k e p = true).
+    { intro H0. destruct served as [l|]; cbn in H0; [|discriminate]. now apply verify_found_designated. }
+    unfold remote_verify in H. unfold remote_needs_fetch.
+    destruct cached as [|c0 cr] eqn:Hc; [now apply Hfetch|]. rewrite <- Hc in *.
+    destruct (find_matching_key (se_kid e) "sig" (se_alg e) cached) as [k'| |] eqn:Hf;
+      try (now apply Hfetch).
+    destruct (verify k' e p) eqn:Hv.
+    - inversion H; subst k'. apply find_designated in Hf as [Hin Hd]. now repeat split.
+    - destruct (remote_exact skip (k_id k') (se_kid e)); [discriminate|]. cbn [negb]. now apply Hfetch.
+  Qed.
+End Designated.
+
+Lemma unambiguous_intro : forall e p keys k,
+  In k keys -> designated (se_kid e) (se_alg e) keys k = true -> sym_verify k e p = true ->
+  unambiguous_in e p keys = true.
+Proof.
+  intros e p keys k Hin Hd Hv. unfold unambiguous_in. apply existsb_exists. exists k.
+  split; [assumption|]. now rewrite Hd, Hv.
+Qed.
+
+Lemma keyset_verify_unambiguous : forall ks e p k,
+  keyset_verify sym_verify ks e p = Some k ->
+  match ks with
+  | KSOpenID (Some keys) => unambiguous_in e p keys
+  | KSOpenID None => false
+  | KSRemote cached served _ =>
+      unambiguous_in e p cached || match served with Some l => unambiguous_in e p l | None => false end
+  | _ => true
+  end = true.
+Proof.
+  intros ks e p k H. destruct ks as [[keys|]|cached served skip|client store|k0]; cbn [keyset_verify] in H;
+    try reflexivity; try discriminate.
+  - apply openid_designated in H as [Hin [Hd Hv]]. now apply (unambiguous_intro _ _ _ k).
+  - apply remote_verify_designated in H as [Hin [Hd Hv]].
+    destruct (remote_needs_fetch sym_verify cached skip e p).
+    + destruct served as [l|].
+      * rewrite (unambiguous_intro _ _ _ k Hin Hd Hv). apply orb_true_r.
+      * now rewrite (unambiguous_intro _ _ _ k Hin Hd Hv).
+    + now rewrite (unambiguous_intro _ _ _ k Hin Hd Hv).
+Qed.
+
+Lemma check_signature_inv : forall verify allowed ks t parsed alg,
+  check_signature verify allowed ks t parsed = Ok alg ->
+  exists e p k, tok_sigs t = [e] /\ tok_payload t = Some p /\ keyset_verify verify ks e p = Some k.
+Proof.
+  intros verify allowed ks t parsed alg H. unfold check_signature in H.
+  destruct t as [e p|sigs p|]; cbn [jose_parse] in H.
+  - destruct (string_in (se_alg e) (effective_algs allowed)); [|discriminate].
+    destruct (keyset_verify verify ks e p) as [k|] eqn:Hk; [|discriminate].
+    exists e, p, k. now repeat split.
+  - destruct (all_algs_allowed (effective_algs allowed) sigs); [|discriminate].
+    destruct sigs as [|e [|e2 r]]; try discriminate.
+    destruct (keyset_verify verify ks e p) as [k|] eqn:Hk; [|discriminate].
+    exists e, p, k. now repeat split.
+  - discriminate.
+Qed.
+
+Lemma check_signature_unambiguous : forall allowed ks t parsed alg,
+  check_signature sym_verify allowed ks t parsed = Ok alg -> sig_unambiguous ks t = true.
+Proof.
+  intros allowed ks t parsed alg H. apply check_signature_inv in H as [e [p [k [H1 [H2 H3]]]]].
+  unfold sig_unambiguous. rewrite H1, H2. now apply keyset_verify_unambiguous in H3.
+Qed.
+
+Lemma check_signature_believable : forall allowed ks t parsed alg,
+  check_signature sym_verify allowed ks t parsed = Ok alg ->
+  sig_believable allowed ks t parsed = true /\ alg = sig_alg t.
+Proof.
+  intros allowed ks t parsed alg H. pose proof (check_signature_unambiguous _ _ _ _ _ H) as Hu.
+  apply check_signature_genuine in H as [Hg Ha]. unfold sig_believable. now rewrite Hg, Hu.
+Qed.
+
 Lemma selectable_find : forall kid alg keys k,
   selectable kid alg keys k = true -> find_matching_key kid "sig" alg keys = FOk k.
 Proof.
@@ -558,6 +684,29 @@ Section RemoteSeq.
   Qed.
 End RemoteSeq.
 
+(* on a remote key set the designating list is the one held after the call *)
+Lemma remote_check_unambiguous : forall allowed skip cached served t parsed alg,
+  check_signature sym_verify allowed (KSRemote cached served skip) t parsed = Ok alg ->
+  sig_unambiguous (KSOpenID (Some (fst (remote_after sym_verify allowed skip cached served t)))) t = true.
+Proof.
+  intros allowed skip cached served t parsed alg H. unfold check_signature in H. unfold remote_after, sig_unambiguous.
+  destruct t as [e p|sigs p|]; cbn [jose_parse tok_sigs tok_payload] in *.
+  - destruct (string_in (se_alg e) (effective_algs allowed)) eqn:Ha; [|discriminate].
+    cbn [keyset_verify] in H.
+    destruct (remote_verify sym_verify cached served skip e p) as [k|] eqn:Hk; [|discriminate].
+    apply remote_verify_designated in Hk as [Hin [Hd Hv]].
+    destruct (remote_needs_fetch sym_verify cached skip e p); [destruct served|]; cbn [fst];
+      now apply (unambiguous_intro _ _ _ k).
+  - destruct (all_algs_allowed (effective_algs allowed) sigs) eqn:Ha; [|discriminate].
+    destruct sigs as [|e [|e2 r]]; try discriminate.
+    cbn [keyset_verify] in H.
+    destruct (remote_verify sym_verify cached served skip e p) as [k|] eqn:Hk; [|discriminate].
+    apply remote_verify_designated in Hk as [Hin [Hd Hv]].
+    destruct (remote_needs_fetch sym_verify cached skip e p); [destruct served|]; cbn [fst];
+      now apply (unambiguous_intro _ _ _ k).
+  - discriminate.
+Qed.
+
 Lemma remote_seq_model : forall allowed skip steps cached,
   remote_seq_spec allowed skip cached steps (remote_run sym_verify allowed skip cached steps) = true.
 Proof.
@@ -569,7 +718,9 @@ Proof.
     cbn. destruct (rs_served s); [reflexivity|]. exfalso. now apply Hf.
   - destruct (check_signature sym_verify allowed (KSRemote cached (rs_served s) skip) (rs_tok s) (rs_parsed s))
       as [alg|e] eqn:H.
-    + apply remote_check_sound in H as [e [k [H1 [H2 [H3 [H4 [H5 [H6 H7]]]]]]]].
+    + pose proof (remote_check_unambiguous _ _ _ _ _ _ _ H) as Hu.
+      apply remote_check_sound in H as [e [k [H1 [H2 [H3 [H4 [H5 [H6 H7]]]]]]]].
+      unfold sig_believable. rewrite Hu, andb_true_r.
       unfold sig_genuine, sig_alg. rewrite H1, H2. subst alg. rewrite H4, !seqb_refl. cbn [andb].
       rewrite !andb_true_r. apply existsb_exists. exists k. split; [assumption|].
       cbn [trusted_key] in *. now rewrite H7, H6.
@@ -587,7 +738,7 @@ Proof.
       by now rewrite H.
     apply each_verifier in Ho as [bytes [c [sa [Hm [Hc [Hs Ha]]]]]].
     unfold accept_ok. subst m c'. rewrite claims_eqb_refl.
-    apply check_signature_genuine in Hs as [Hg Hsa]. rewrite Hg. cbn [andb].
+    apply check_signature_believable in Hs as [Hg Hsa]. rewrite Hg. cbn [andb].
     (* the reported algorithm *)
     destruct k as [| | |dg|a]; cbn [run_verifier] in H; cbn [alg_reported].
     * unfold verify_id_token in H.
@@ -632,7 +783,7 @@ Proof.
       discriminate.
     * unfold accept_ok. subst m c'. rewrite claims_eqb_refl.
       cbn [verifier_algs verifier_keyset] in Hs.
-      pose proof Hs as Hs2. apply check_signature_genuine in Hs2 as [Hg Hsa].
+      pose proof Hs as Hs2. apply check_signature_believable in Hs2 as [Hg Hsa].
       cbn [verifier_algs verifier_keyset]. rewrite Hg. cbn [andb alg_reported].
       unfold verify_id_token_hint in H.
       repeat match type of H with context [andthen ?a _] => destruct a; cbn [andthen] in H; [discriminate|] end.
@@ -655,7 +806,7 @@ Proof.
   intros [kid use alg keys|allowed ks t parsed|k v ks t m now0 now1|allowed skip steps|k v ks steps|p hint t m now0 now1]; cbn [model spec].
   - apply find_spec_model.
   - destruct (check_signature sym_verify allowed ks t parsed) as [alg|e] eqn:H.
-    + apply check_signature_genuine in H as [Hg Ha]. rewrite Hg. subst alg. now rewrite seqb_refl.
+    + apply check_signature_believable in H as [Hg Ha]. rewrite Hg. subst alg. now rewrite seqb_refl.
     + destruct (sig_complete allowed ks t parsed) eqn:Hc; [|reflexivity].
       apply check_signature_complete in Hc. congruence.
   - apply verify_step_model.
